@@ -26,6 +26,20 @@ def forced_classes(rng, n):
     differently, a join that hides a shared column, a calculation that re-creates a hidden tag under a sort,
     joins with the join identity and a predicate."""
     out = [(p, False, "fixed_window") for p in sp.fixed_window_cases()]
+    out += [(p, False, "sorted_then") for p in sp.sorted_then_sequences(False)]
+    # join predicates that fold to a constant, alone and inside compounds, over operands with and without shared columns
+    a, b, c = K(1), K(2), N(1)
+    atom = ("cmp", "lt", ("ref", a), ("lit", 2))
+    consts = [("plit", False), ("plit", True), ("or", []), ("and", []), ("and", [atom, ("plit", False)]), ("and", [atom, ("not", ("plit", True))]),
+              ("not", ("or", [atom, ("plit", True)])), ("or", [("plit", False), ("and", [("plit", False), atom])]), ("not", ("plit", False)),
+              ("or", [atom, ("plit", True)]), ("and", [("plit", True), atom])]
+    for pred in consts:
+        for rcols in ([a, c], [c]):
+            l1 = ("leaf", 1, sp.SQL, [a, b], [{a: 1, b: 1}, {a: 2, b: 5}, {a: 1, b: 7}], (0, None))
+            l2 = ("leaf", 2, sp.SQL, rcols, [dict.fromkeys(rcols, 1), dict.fromkeys(rcols, 2)], (0, None))
+            j = ("join", pred, True, False, l1, l2)
+            out += [(j, False, "const_join"), (("un", ("proj", [a]), mp.DEFAULT, ("un", ("sel", atom), mp.DEFAULT, j)), False, "const_join"),
+                    (("chain", j, j), False, "const_join")]
     pool = [K(i) for i in range(1, 9)] + [N(i) for i in range(1, 9)]
     for _ in range(n):
         kind = rng.choice(["union_order", "hidden_join", "recreate", "identity_join", "shared_leaf", "dedup_proj", "window_then", "window_then", "mutual_hidden", "self_join", "compound_order"])
